@@ -114,8 +114,11 @@ def check(run):
                                 twin["slop"] = 1
                             kids = [aq, twin] if rng.random() < 0.5 else [twin, aq]
                             aq = {"op": rng.choice(["or", "and"]), "kids": kids, "b4": 4}
+                    elif qi % 6 == 3 and rng.random() < 0.6:
+                        aq = world.rand_nested_query(rng)       # parent / child queries (wrap a query and a parent set)
                     aq2 = world.rand_query(rng, rng.randrange(0, 2), ops=NOFUZZY)
                     q, q2 = world.to_query(aq), world.to_query(aq2)
+                    repr0 = repr(q)
                     groups = {}
                     for label, oracle, fn in rewrites(s, q, q2, aq, aq2):
                         key = repr(sorted(oracle.items(), key=str)) if False else id(oracle) if oracle is aq else label
@@ -152,6 +155,19 @@ def check(run):
                         except Exception as ex:
                             obs.append({"kind": "error", "path": label, "err": type(ex).__name__, "msg": str(ex)[:150]})
                         run.count()
+                    # rewriting returns new queries: the original is what it was (also after a replace() of a
+                    # word it does contain)
+                    try:
+                        words = sorted(set(t for _, t in q.iter_all_terms())) if hasattr(q, "iter_all_terms") else []
+                        for fname in world.TEXT_FIELDS:
+                            for wd in words[:3]:
+                                q.replace(fname, wd, u"zzz")
+                        unchanged = repr(q) == repr0
+                    except Exception as ex:
+                        unchanged = "raised %s" % type(ex).__name__
+                    groups.setdefault(id(aq), {"q": aq, "obs": []})["obs"].append(
+                        {"kind": "flag", "path": "original-unchanged-by-rewriting", "value": unchanged is True,
+                         "detail": str(unchanged)})
                     qs.extend(groups.values())
                 cases.append({"idx": idx, "qs": qs})
                 meta.append({"plan": plan, "nseg": len(s.reader().leaf_readers()),
